@@ -402,6 +402,55 @@ def call_builtin(ex, name, e, st, awaited):
         return res
     if name == 'hasattr':
         return [(st, vbool(L.fresh('hasattr', L.B)))]
+    if name in ('any', 'all', 'next') and e.args and isinstance(e.args[0], ast.GeneratorExp):
+        g = e.args[0]
+        if len(g.generators) != 1 or g.generators[0].is_async or \
+                not isinstance(g.generators[0].target, ast.Name):
+            raise Unsupported('%s over a complex generator expression (line %d)' % (name, e.lineno))
+        gen = g.generators[0]
+        tname = gen.target.id
+        if not all(ex.simple(c_) for c_ in gen.ifs) or not ex.simple(g.elt):
+            raise Unsupported('%s over a generator expression with effects (line %d)' % (name, e.lineno))
+        default = None
+        if name == 'next':
+            if len(e.args) != 2:
+                raise Unsupported('next() without default (line %d)' % e.lineno)
+        for st2, vals in ex.ev_many([gen.iter] + ([e.args[1]] if name == 'next' else []), st):
+            if isinstance(vals, Raised):
+                res.append((st2, vals))
+                continue
+            S = ex.as_setvalue(vals[0], st2)
+
+            def under_binding(x, what, st2=st2):
+                saved = st2.env.get(tname)
+                st2.env[tname] = vref(x)
+                conds = []
+                for c_ in gen.ifs:
+                    conds.append(ex.to_bool(ex.ev(c_, st2)[0][1], st2))
+                val = ex.ev(g.elt, st2)[0][1] if what == 'elt' else None
+                if saved is None:
+                    del st2.env[tname]
+                else:
+                    st2.env[tname] = saved
+                return z3.And([z3.Select(S, x)] + conds), val
+            x = L.fresh('x', L.Ref)
+            if name in ('any', 'all'):
+                guard, val = under_binding(x, 'elt')
+                tv = ex.to_bool(val, st2)
+                if name == 'any':
+                    res.append((st2, vbool(z3.Exists([x], z3.And(guard, tv)))))
+                else:
+                    res.append((st2, vbool(L.FA([x], z3.Implies(guard, tv)))))
+            else:
+                if not (isinstance(g.elt, ast.Name) and g.elt.id == tname):
+                    raise Unsupported('next() over a mapped generator (line %d)' % e.lineno)
+                r = L.fresh('next', L.Ref)
+                gr, _ = under_binding(r, None)
+                gx, _ = under_binding(x, None)
+                dflt = ex.to_ref(vals[1])
+                st2.assume(z3.Or(gr, z3.And(r == dflt, L.FA([x], z3.Not(gx)))))
+                res.append((st2, vref(r)))
+        return res
     if name == 'getattr':
         # getattr(obj, name) with a symbolic name: case split over the attributes the contract
         # declares (DESIGN 3.2); any other name is an obligation failure
